@@ -377,6 +377,9 @@ InBox(S) ==
 (***************************************************************************)
 
 \* ---- C01 : batch construction ------------------------------------------
+\* a.dedup: 0 Off, 1 Exact, 2 Epsilon (absent = default options = Off)
+DedupOn(a) == "dedup" \in DOMAIN a /\ a.dedup # 0
+
 ConstructOK(a, r, post) ==
   LET g == post.cfg.g
       inputs == Range(a.input)
@@ -393,8 +396,12 @@ ConstructOK(a, r, post) ==
   /\ Chk(IF Len(a.L) = 0 THEN "C01.vertices are inputs" ELSE "C16.vertex not congruent to its input",
          \A v \in VRecs(post) : \E x \in inputs : ImageOfT(v, x, a.L))
   /\ Chk("C01.inserted count", r.inserted < 0 \/ r.inserted = Len(post.verts))
+  \* every input vertex is inserted, skipped, or - with a dedup policy - dropped by the preprocessing before the
+  \* insertion loop (the statistics do not count those)
   /\ Chk("C01.skipped count",
-         r.skipped < 0 \/ r.inserted + r.skipped = Len(a.input))
+         r.skipped < 0 \/ r.inserted + r.skipped = Len(a.input)
+         \/ (DedupOn(a) /\ r.inserted + r.skipped <= Len(a.input)
+             /\ r.inserted + r.skipped >= Cardinality({a.input[i].m : i \in DOMAIN a.input})))
   \* C09 (construction half): no two stored vertices at one lattice home unless
   \* one is perturbed; every skipped-as-duplicate count is backed by a real duplicate
   /\ Chk("C09.no coincident vertices",
